@@ -776,7 +776,7 @@ class SR(_Base, numbers.Real):
             return SR(self.d if self.d is not None else _ONE) * SR(q(1 / cn))
         c.need(self.n != 0)
         if DIVMODE[0] == "let":
-            key = ("inv", self.e.sexpr())
+            key = ("inv", canon(self.e).sexpr())
             if key not in c.data:
                 qv = c.fresh("quo")
                 # qv * n == d
@@ -797,7 +797,7 @@ class SR(_Base, numbers.Real):
         if DIVMODE[0] == "let" and _cval(self.n) != 0:
             c = cur()
             c.need(o.n != 0)
-            key = ("div", self.e.sexpr(), o.e.sexpr())
+            key = ("div", canon(self.e).sexpr(), canon(o.e).sexpr())
             if key not in c.data:
                 qv = c.fresh("quo")
                 c.pc.append(t_mul(qv, o.e) == self.e)
@@ -957,7 +957,7 @@ class SR(_Base, numbers.Real):
                 a, b = f.numerator, f.denominator
                 if isqrt(a) ** 2 == a and isqrt(b) ** 2 == b:
                     return SR(z3.Q(isqrt(a), isqrt(b)))
-        key = ("sqrt", e.sexpr())
+        key = ("sqrt", canon(e).sexpr())
         if key in c.data:
             return SR(c.data[key])
         s = c.fresh("sqrt")
